@@ -62,7 +62,7 @@ def main():
             "guard": "cargo feature `verif` of cassadilia",
             "enable": "harness/Cargo.toml: cassadilia = { path = \"/repo\", features = [\"verif\"] }",
             "baseline_off_cmd": "cd /repo && cargo test --workspace --no-fail-fast --offline",
-            "source_commits": ["4c760dc", "7bc0271"],
+            "source_commits": ["4c760dc", "7bc0271", "f4071ba"],
             "add_only": True,
         },
         "engines": [
